@@ -26,4 +26,4 @@ For each change k = 1,2,3 write into {wt}/seeded/k/ :
   - patch.diff : `git diff` of the change against the unmodified worktree (apply with `git apply`), touching only library source files (not tests);
   - demo.py    : a small standalone program (run as `PYTHONPATH=<tree> /venv/bin/python demo.py`) that exits 0 on the unmodified tree and exits 1 (printing what went wrong) with the change applied. It must test the property statement itself (not implementation details);
   - note.txt   : 3-6 lines: which clause of the property it breaks, what it needs in order to manifest, and the commands you ran with their observed results (tests passing with the change, demo failing with it and passing without it).
-After producing each patch, restore the worktree (`git -C {wt} checkout -- .`) before starting the next, so that each patch is against the unmodified tree. Verify every claim by actually running it. At the end reply with a short summary listing the three changes.""")
+After producing each patch, restore the worktree (`git -C {wt} checkout -- .`) before starting the next, so that each patch is against the unmodified tree. Verify every claim by actually running it. Other agents may work in sibling worktrees of the same repository at the same time: do NOT use `git stash` (refs/stash is shared by all worktrees); use `git diff > file`, `git checkout -- .`, `git apply [-R] file` instead. At the end reply with a short summary listing the three changes.""")
